@@ -36,8 +36,8 @@ specfun("pos_ok", ["a"],
         "        and ref(typed(a._last_child, 'TaskLevel')._level) != ref(a._task_level._level))")
 specfun("rep_ok", ["a"],
         "pos_ok(a) and dom(a._identification) == setof('task_uuid', 'action_type')"
-        " and ref(a._identification) != ref(a._successFields)")
-specfun("cur_ok", [], "implies(curact() is not None, pos_ok(typed(curact(), 'Action')))")
+        " and forall(lambda b: b._successFields != a._identification, 'ref:obj')")
+specfun("cur_ok", [], "implies(curact() is not None, rep_ok(typed(curact(), 'Action')))")
 specfun("is_report", ["ev"],
         "ev.tag == 'write' and ev.d is None and (ev.e == 'eliot:destination_failure' or ev.e == 'eliot:serialization_failure'"
         " or ev.e == 'eliot:traceback')")
@@ -77,7 +77,7 @@ contract("iface::ILogger.write", params=["self", "dictionary", "serializer"], de
                   ("offers-appended", "OFFERS == old(OFFERS) + DOFF"),
                   ("dictionary-not-mutated", "dict_of(dictionary) == old(dict_of(dictionary))"),
                   ("positions-only-in-current-action", "only_changed('_last_child', curact())"),
-                  ("current-action-advances", "implies(curact() is not None, pos_ok(typed(curact(), 'Action')) and pos(typed(curact(), 'Action')) >= old(pos(typed(curact(), 'Action'))))"),
+                  ("current-action-advances", "implies(curact() is not None, rep_ok(typed(curact(), 'Action')) and pos(typed(curact(), 'Action')) >= old(pos(typed(curact(), 'Action'))))"),
                   ("channels-grow", "prefix_of(old(OFFERS), OFFERS) and prefix_of(old(CALLS), CALLS) and prefix_of(old(IO), IO)")])
 
 RELY = [("context-restored", "CTX[me] == old(CTX[me])"),
@@ -120,6 +120,7 @@ contract("iface::Extractor.__call__", params=["self", "exception"], returns="dic
                "BaseException; does not touch Eliot's objects",
          modifies=["#CALLS"],
          ensures=[("recorded", "CALLS == old(CALLS) + [Ev('ret', self, exception, None, result)]"),
+                  ("field-names-are-str-and-not-eliot-reserved", "'self' not in result and 'message_type' not in result and 'action_status' not in result and '__eliot_logger__' not in result and '__eliot_serializer__' not in result and forall(lambda k: implies(contains(dict_of(result), k), is_str(k)), 'val')"),
                   ("result-is-its-own", "fresh(result) or forall(lambda a: box(result) != a._identification and box(result) != a._successFields, 'ref:obj')")],
          raises=[{"cls": "BaseException", "ensures": [("recorded", "CALLS == old(CALLS) + [Ev('exc', self, exception, None, exc)]")]}])
 
@@ -182,3 +183,7 @@ for _role in ("Serializer", "Validator"):
              modifies=["#CALLS"],
              ensures=[("recorded", "CALLS == old(CALLS) + [Ev('ret', self, input, None, result)]")],
              raises=[{"cls": "BaseException", "ensures": [("recorded", "CALLS == old(CALLS) + [Ev('exc', self, input, None, exc)]")]}])
+
+fields("Message", _contents="dict", _serializer="Opt[_MessageSerializer]")
+global_hint("eliot/_traceback.py:TRACEBACK_MESSAGE", "MessageType")
+global_hint("eliot/_errors.py:_error_extraction", "ErrorExtraction")
